@@ -23,7 +23,7 @@ from ..values import ADict, AList, ExtObj, Msg, PyRaise
 from . import c02, c04, pipejob
 
 
-def partitions(w: K.Wire, rows: list[Msg]) -> list[tuple[str, list[Msg]]]:
+def partitions(w: K.Wire, rows: list[Msg], tier: str = "quick") -> list[tuple[str, list[Msg]]]:
     """Re-partitionings of one row sequence (the first frame always starts with the options row)."""
     meta = ADict([["producer", b"x"]])
     out = [("single frame", [w.frame(rows)])]
@@ -50,6 +50,16 @@ def partitions(w: K.Wire, rows: list[Msg]) -> list[tuple[str, list[Msg]]]:
     if a or b:
         frames.append(w.frame(a + b))
     out.append(("cut between entries and their use", frames))
+    if tier == "thorough":
+        import itertools
+
+        # every partitioning with one or two cuts, and every single cut with an empty frame in between
+        n = len(rows)
+        for c1 in range(1, n):
+            out.append((f"cut at {c1}", [w.frame(rows[:c1]), w.frame(rows[c1:])]))
+            out.append((f"cut at {c1} with an empty frame", [w.frame(rows[:c1]), w.frame([]), w.frame(rows[c1:])]))
+        for c1, c2 in itertools.combinations(range(1, n), 2):
+            out.append((f"cuts at {c1},{c2}", [w.frame(rows[:c1]), w.frame(rows[c1:c2]), w.frame(rows[c2:])]))
     return out
 
 
@@ -65,7 +75,7 @@ def run_reframe(prog, job: dict) -> dict:
         enc.finish()
         rows = [r for _t, r in enc.rows]
         res: dict[str, Any] = {}
-        for pname, frames in partitions(w, rows):
+        for pname, frames in partitions(w, rows, job.get("tier", "quick")):
             ref = refdec.decode(it.schema, frames)
             if ref.errors:
                 raise AnalysisError(f"C07: re-partitioned reference stream invalid: {ref.errors[:2]}")
@@ -97,7 +107,7 @@ def run_reframe(prog, job: dict) -> dict:
 
     paths = []
     funcs: set[str] = set()
-    for it, outcome in explore(prog, scenario, max_paths=8, generic_strings=True):
+    for it, outcome in explore(prog, scenario, max_paths=8, generic_strings=True, **({"max_steps": 200_000_000} if job.get("tier") == "thorough" else {})):
         for e in it.events:
             if e["kind"] == "call":
                 funcs.add(f"{e['module']}.{e['func']}")
@@ -157,7 +167,7 @@ def check(chk: Check) -> None:
     for physical in (1, 2, 3):
         for name, stmts in c04.sequences(physical):
             rdf11 = name in ("long-mixed", "repeats")
-            jobs.append(dict(physical=physical, name=name, stmts=stmts, integs=["generic"] + (["rdflib"] if rdf11 else [])))
+            jobs.append(dict(physical=physical, name=name, stmts=stmts, integs=["generic"] + (["rdflib"] if rdf11 else []), tier=chk.tier))
     for res in pmap(run_reframe, jobs, min_parallel=4):
         if res is None:
             continue
